@@ -2,6 +2,25 @@ from specs.common import run, ASSUME_COMMON
 
 H = "c19_names_views_scopes"
 
+# run "scopes": every public way to hand a scope configurator to a provider (one per case and signal, seed-derived)
+PROC_PATHS = ["processor-constructor", "vector-constructor", "context-constructor", "contextfactory-constructor",
+              "processor-factory", "vector-factory", "context-factory", "contextfactory-factory"]
+METER_PATHS = ["views-constructor", "views-factory", "context-constructor", "contextfactory-constructor",
+               "context-factory", "contextfactory-factory"]
+
+
+def path_floors(cases_pl, disabled_pl, enabled_pl, cases_m, disabled_m, enabled_m):
+    f = {}
+    for sig, paths, c, d, e in (("traces", PROC_PATHS, cases_pl, disabled_pl, enabled_pl),
+                                ("logs", PROC_PATHS, cases_pl, disabled_pl, enabled_pl),
+                                ("metrics", METER_PATHS, cases_m, disabled_m, enabled_m)):
+        for p in paths:
+            f["scope_cases_%s:%s" % (sig, p)] = c
+            f["scopes_disabled_%s:%s" % (sig, p)] = d
+            f["scopes_enabled_%s:%s" % (sig, p)] = e
+    return f
+
+
 SPEC = {
     "runs": [
         # cases 0..2815 of "names" are the completely enumerated sub-space, the rest is seeded
@@ -38,12 +57,18 @@ SPEC = {
             "scopes_disabled_logs": 3000, "scopes_enabled_traces": 4000, "scopes_enabled_metrics": 4000,
             "scopes_enabled_logs": 4000, "identity_repeat_requests_traces": 3000,
             "identity_repeat_requests_metrics": 3000, "identity_repeat_requests_logs": 1200,
+            # per construction path of the provider (8 traces + 8 logs + 6 metrics paths).  Smallest value of any path
+            # at seeds {1,2,3,7,42}: cases 920 (traces/logs) 1273 (metrics), disabled 1712 / 2311, enabled 2431 / 3268,
+            # two-processor cases 2942 -> every floor is met >= 3.2x
+            "scope_cases_traces_two_processors": 900, "scope_cases_logs_two_processors": 900,
+            **path_floors(270, 450, 700, 380, 700, 1000),
         },
         "thorough": {
             "names_enumerated": 2700, "names_random": 300000, "name_boundary_length_cases": 30000,
             "view_pairs_matching": 25000, "view_pairs_failing_only_type": 25000,
             "view_pairs_failing_only_meter-version": 3000, "instruments_with_two_matching_views": 2500,
             "rule_lists_where_order_decides": 8000, "identity_repeat_requests_logs": 20000,
+            **path_floors(13000, 22000, 35000, 19000, 35000, 50000),
         },
     },
     "coverage_extra": {
@@ -83,7 +108,11 @@ SPEC = {
              "readers, two record+collect rounds; every collected stream is paired with the model's (meter, stream name) "
              "and compared field by field and point by point. run scopes: case = rule list of 0..6 conditions (name-equals, "
              "version/schema/prefix/length/attribute/always/never predicates; default on/off) against 1..8 scope requests "
-             "each for a TracerProvider, MeterProvider and LoggerProvider; exported spans/streams/log records and pointer "
+             "each for a TracerProvider, MeterProvider and LoggerProvider, each assembled through one seed-derived way out of "
+             "all public ways to pass a configurator (constructor overloads taking one processor / a vector of 1..2 "
+             "processors / a context built by its constructor or by the *ContextFactory; the *ProviderFactory::Create "
+             "counterparts; for meters (views, resource, configurator) or a MeterContext): 8 + 6 + 8 paths, the path is "
+             "part of the input class; exported spans/streams/log records (at every processor) and pointer "
              "identity are compared with the first-match-wins model. Non-trivial = every case (each creates instruments or "
              "scopes and collects); distinct = hash of name+unit+kind / of the printed configuration."),
     "assumptions": ASSUME_COMMON + [
